@@ -1,2 +1,95 @@
 #![allow(warnings, clippy::all, clippy::pedantic, clippy::nursery)]
+//@ module: vfs
 use super::*;
+use crate::error::verif_harness as vh;
+
+fn startpoints_check<const N: usize>() {
+    let sizes: [usize; N] = kani::any();
+    let mut k = 0;
+    // blob plaintext sizes: at least 1 byte, at most 2^40
+    while k < N { kani::assume(sizes[k] >= 1 && sizes[k] <= (1usize << 40)); k += 1; }
+    let sp = ContentStartpoints::from_sizes(sizes.iter().map(|s| Ok(*s))).unwrap();
+    let offset: usize = kani::any();
+    let (i, off) = sp.compute_start(offset);
+    let mut total = 0usize;
+    let mut start = 0usize;
+    let mut k = 0;
+    while k < N { if k < i { start += sizes[k]; } total += sizes[k]; k += 1; }
+    if N == 0 {
+        assert!(i == 0 && off == 0);
+    } else if offset < total {
+        // the byte at `offset` is byte `off` of blob `i`
+        assert!(i < N);
+        assert!(start + off == offset);
+        assert!(off < sizes[i]);
+        kani::cover!(i == N - 1 && off == sizes[N - 1] - 1, "last byte of the file");
+        kani::cover!(N < 2 || (i == 1 && off == 0), "first byte of the second blob");
+    } else {
+        // reading at or beyond EOF must yield nothing in read_at: either no blob is selected,
+        // or the in-blob offset is at/after the end of the last blob
+        assert!(i >= N || (i == N - 1 && off >= sizes[i]));
+        kani::cover!(offset == total, "read exactly at EOF");
+    }
+    // the slicing loop of OpenFile::read_at (mirrored; the blob source is the only substitution)
+    let mut length: usize = kani::any();
+    kani::assume(length <= 8);
+    let want = if offset >= total { 0 } else { (total - offset).min(length) };
+    let (mut bi, mut boff) = (i, off);
+    let mut got = 0usize;
+    let mut pos_ok = true;
+    let mut steps = 0;
+    while length > 0 && bi < N && steps < N + 1 {
+        let dlen = sizes[bi];
+        if boff > dlen { break; }
+        let to_copy = (dlen - boff).min(length);
+        // bytes copied are file bytes [cursor, cursor+to_copy)
+        let mut s = 0usize; let mut k = 0; while k < N { if k < bi { s += sizes[k]; } k += 1; }
+        if s + boff != offset + got { pos_ok = false; }
+        got += to_copy;
+        boff = 0;
+        length -= to_copy;
+        bi += 1;
+        steps += 1;
+    }
+    assert!(pos_ok);
+    assert!(got == want);
+    kani::cover!(true, "checked");
+    std::mem::forget(sp);
+}
+
+//@ harness: c01_ranged_read_startpoints_3
+//@ prop: C01
+//@ tier: quick
+//@ timeout: 900
+//@ mem: 10
+//@ kernel: vfs::ContentStartpoints::{from_sizes, compute_start}; the slicing loop of OpenFile::read_at mirrored over blob sizes
+//@ bound: 3 content blobs with symbolic plaintext sizes 1..=2^40, any usize offset, read length 0..=8; unwind 8
+//@ oracle: compute_start returns (i,o) with sum(size_k, k<i) + o == offset and o < size_i for offset < file size, otherwise a position from which nothing is read; the read loop then yields exactly min(length, size - offset) bytes, each taken from the right file position
+//@ assume: blob sizes are >= 1 (no empty chunks, C06) and their sum fits usize (files < 2^42 bytes here)
+//@ outside: fetching/decrypting the blobs (repo.get_blob_cached: index lookup C17 + blob framing c01_blob_framing_roundtrip_*), the read loop is mirrored (4 lines) because OpenFile::read_at needs a Repository
+#[kani::proof]
+#[kani::unwind(8)]
+#[kani::stub(std::backtrace::Backtrace::capture, crate::error::verif_harness::stub_backtrace_capture)]
+pub(crate) fn c01_ranged_read_startpoints_3() { startpoints_check::<3>(); }
+
+//@ harness: c01_ranged_read_startpoints_0 c01_ranged_read_startpoints_1 c01_ranged_read_startpoints_4
+//@ prop: C01
+//@ tier: thorough
+//@ timeout: 1800
+//@ mem: 12
+//@ kernel: as c01_ranged_read_startpoints_3
+//@ bound: as c01_ranged_read_startpoints_3 with 0, 1 and 4 content blobs
+//@ oracle: as c01_ranged_read_startpoints_3
+//@ assume: blob sizes >= 1
+#[kani::proof]
+#[kani::unwind(8)]
+#[kani::stub(std::backtrace::Backtrace::capture, crate::error::verif_harness::stub_backtrace_capture)]
+pub(crate) fn c01_ranged_read_startpoints_0() { startpoints_check::<0>(); }
+#[kani::proof]
+#[kani::unwind(8)]
+#[kani::stub(std::backtrace::Backtrace::capture, crate::error::verif_harness::stub_backtrace_capture)]
+pub(crate) fn c01_ranged_read_startpoints_1() { startpoints_check::<1>(); }
+#[kani::proof]
+#[kani::unwind(8)]
+#[kani::stub(std::backtrace::Backtrace::capture, crate::error::verif_harness::stub_backtrace_capture)]
+pub(crate) fn c01_ranged_read_startpoints_4() { startpoints_check::<4>(); }
